@@ -1993,10 +1993,18 @@ fn compile_aexpr_assign(
                 value: compile_cexpr(goenv, &other),
             }],
             anf::CExpr::ECall { func, args, ty } => {
-                vec![goast::Stmt::Assignment {
-                    name: go_ident(target),
-                    value: compile_cexpr(goenv, &anf::CExpr::ECall { func, args, ty }),
-                }]
+                let is_missing_arm = matches!(&func, anf::ImmExpr::ImmVar { name, .. } if name == "missing")
+                    && !matches!(ty, tast::Ty::TUnit);
+                let call = compile_cexpr(goenv, &anf::CExpr::ECall { func, args, ty });
+                if is_missing_arm {
+                    // the runtime helper returns struct{} and never returns normally
+                    vec![goast::Stmt::Expr(call)]
+                } else {
+                    vec![goast::Stmt::Assignment {
+                        name: go_ident(target),
+                        value: call,
+                    }]
+                }
             }
             anf::CExpr::EDynCall {
                 trait_name,
